@@ -21,6 +21,7 @@ wait() that returns on a notification older than its own ticket is reported as K
 from __future__ import annotations
 
 import json
+import os
 import random
 import time
 from asyncio import CancelledError, current_task
@@ -34,6 +35,29 @@ EOPN = {0: "EvWait", 1: "EvSet", 3: "EvResume", 4: "EvCancel", 8: "EvScopeCancel
 COPN = {0: "Acquire", 1: "AcqNowait", 2: "Release", 3: "Resume", 4: "Cancel", 5: "Notify", 6: "NotifyAll",
         7: "Wait", 8: "ScopeCancel", 9: "LockAcquire", 10: "LockAcqNowait", 11: "LockRelease"}
 NCONDS = 3
+KNOWN_FINDINGS_PATH = os.environ.get("VERIF_KNOWN_FINDINGS", str(core.VERIF / "known_findings.json"))
+
+
+def load_known_findings() -> dict:
+    """predicate -> (id, what) for the entries of known_findings.json (read only, single source) with
+    status == "known" and property == "C11".  A predicate that is not listed there is NOT a known finding: its
+    monitor hits are ordinary violations."""
+    try:
+        data = json.loads(open(KNOWN_FINDINGS_PATH).read())
+    except Exception:  # noqa: BLE001
+        return {}
+    out = {}
+    for f in data.get("findings", []):
+        if f.get("status") == "known" and f.get("property") == "C11":
+            pred = (f.get("match") or {}).get("predicate")
+            if pred:
+                out[pred] = (f.get("id", "?"), f.get("what", ""))
+    return out
+
+
+KNOWN = load_known_findings()
+
+# description used in the evidence only; the KNOWN-FINDING line is printed from known_findings.json
 F18_WHAT = ("Condition.wait(): a cancelled-and-notified waiter passes its notification to the head of the queue when "
             "it resumes, which can be a task that started waiting after the notify call - that task's wait() returns "
             "although no notification issued at or after its start selected it (F18, late_handover)")
@@ -173,10 +197,10 @@ class BaseRun:
 
     def unexplained(self):
         """Monitor messages that are not instances of a known finding."""
-        return [m for (k, m) in self.hits if k != "late_handover"]
+        return [m for (k, m) in self.hits if k not in KNOWN]
 
     def known_classes(self):
-        return {"F18"} if any(k == "late_handover" for (k, _) in self.hits) else set()
+        return {KNOWN[k][0] for (k, _) in self.hits if k in KNOWN}
 
 
 # =====================================================================================================
@@ -1309,9 +1333,14 @@ def check(tier: str) -> int:
                                       "first_diff_step": k // w}))
     # monitor hits: instances of the known finding F18 are separated from everything else
     monitor_hits = [(r, msg) for r in runs for msg in r.unexplained()]
-    n_known = sum(1 for r in runs if r.known_classes())
-    if n_known:
-        rep.known_finding(F18_WHAT)
+    # known findings: only what known_findings.json lists (status known, property C11) - anything else is a violation
+    n_known_by_id = {}
+    for pred, (fid, what) in KNOWN.items():
+        n = sum(1 for r in runs if any(k == pred for (k, _) in r.hits))
+        if n:
+            n_known_by_id[fid] = n
+            rep.known_finding(f"{what} ({fid}, predicate {pred})")
+    n_known = sum(n_known_by_id.values())
 
     # kernel-checked sample (always includes the corpus)
     sample_n = 40 if quick else 400
@@ -1407,10 +1436,16 @@ def check(tier: str) -> int:
         "event_cases": sum(1 for r in runs if r.machine == 0),
         "exempt_native_cancel_in_reacquire_cases": n_exempt,
         "exempt_note": "cases in which a native Task.cancel() landed inside Condition.wait()'s shielded re-acquire: correspondence still checked, monitors adjusted (wait() raising without the lock / dropped notification not reported)",
-        "known_finding_cases": {"F18": n_known},
+        "known_finding_cases": n_known_by_id,
+        "known_findings_source": {"file": KNOWN_FINDINGS_PATH, "read_only": True,
+                                  "entries_for_C11": {p_: i_ for p_, (i_, _) in KNOWN.items()},
+                                  "rule": "a monitor hit tagged with a predicate is reported as KNOWN-FINDING only if the file lists that predicate (status known, property C11); otherwise it is a VIOLATION"},
         "known_finding_example": (replay_dict(known_example, known_example.script,
-                                              messages=[m for (k, m) in known_example.hits if k == "late_handover"])
+                                              messages=[m for (k, m) in known_example.hits if k in KNOWN])
                                   if known_example else None),
+        "observations": [
+            "cross-loop reuse (outside C11's quantification, recorded only): an anyio.Event whose wait() was started in one event loop (and abandoned) cannot be waited on in a second anyio.run - the backend asyncio.Event is bound to the first loop (RuntimeError); every C11 history lives in one event loop",
+        ],
         "vm_compute_sample": len(idx),
         "vm_compute_ok": vm_ok,
         "model_rejected_ops": rejected,
